@@ -1437,6 +1437,8 @@ class Interp:
         return ('t', self.unknown('pattern ' + k, pat))
 
     def lit(self, l):
+        if l.get('suffix') and l['ty'] in ('int', 'float'):
+            return ('lit', l['ty'], l['v'], l['suffix'])      # `0f64`: a Rust value of that primitive type (quote! prints it with its suffix)
         return ('lit', l['ty'], l['v'])
 
     # --- conditions ----------------------------------------------------------------------------------------------------
@@ -1918,7 +1920,15 @@ class Interp:
     # --- macros ----------------------------------------------------------------------------------------------------------
     def e_Macro(self, e, env, let_name=None, let_mut=False):
         n = e['name']
-        if n == 'quote':
+        if n in ('quote', 'parse_quote', 'quote_spanned') and e.get('tokens') is not None:
+            # syn::parse_quote!(tokens) parses the quoted tokens into a syntax node that prints as those tokens; quote_spanned!(span=> tokens) only
+            # sets the span
+            if n == 'quote_spanned':
+                toks_ = e['tokens']
+                for i_, t_ in enumerate(toks_):
+                    if t_.get('t') == 'p' and t_.get('v') == '=' and i_ + 1 < len(toks_) and toks_[i_ + 1].get('t') == 'p' and toks_[i_ + 1].get('v') == '>':
+                        e = dict(e, tokens=toks_[i_ + 2:])
+                        break
             return self.quote(e, env)
         if n == 'format_ident':
             # quote's format_ident!(fmt, args..) is Ident::new(&format!(fmt, args..), Span::call_site()) (its `span = ..` argument only moves the span;
